@@ -799,6 +799,30 @@ fn w_c03_responses() {
     let r = converse(hs41(b"u", 0), &[(c_prepare(b"p:1:1:0"), 0), (c_long(1, 0, b"x"), 0), (c_close(1), 0), quit()], vec![], false, None, None);
     let m = replies(&r);
     assert!(r.result.is_ok() && m.len() == 1 + 3, "[C03.w.noreply] CLOSE / SEND_LONG_DATA / QUIT produced reply bytes ({} messages)", m.len());
+    // commands that expect no reply produce no bytes -- also when they are refused (a stray packet would be read as the
+    // reply to the client's NEXT command and shift everything after it)
+    let auth_only = converse(hs41(b"u", 0), &[quit()], vec![], false, None, None).out.len();
+    for (what, script) in [("CLOSE of a live id", vec![(c_prepare(b"p:1:0:0"), 0), (c_close(1), 0)]), ("CLOSE of an unknown id", vec![(c_close(9), 0)]),
+                           ("long data for a live id", vec![(c_prepare(b"p:1:1:0"), 0), (c_long(1, 0, b"abc"), 0)]),
+                           ("long data for an unknown id", vec![(c_long(7, 0, b"abc"), 0)]),
+                           ("long data for a closed id", vec![(c_prepare(b"p:1:1:0"), 0), (c_close(1), 0), (c_long(1, 0, b"abc"), 0)])] {
+        let mut before = script.clone();
+        let last = before.pop().unwrap();
+        before.push(quit());
+        let base = converse(hs41(b"u", 0), &before, vec![], false, None, None);
+        let mut cmds = script.clone();
+        cmds.push((vec![0x0e], 0));
+        cmds.push(quit());
+        let r = converse(hs41(b"u", 0), &cmds, vec![], false, None, None);
+        assert!(!r.panicked, "[C03.w.noreply] {} made run_on panic", what);
+        let extra = &r.out[base.out.len().min(r.out.len())..];
+        // either the connection ended (no further bytes at all) or exactly the PING was answered
+        let ok_only = raw_packets(extra).map(|ps| ps.len() == 1 && parse_ok(&ps[0].1).is_some()).unwrap_or(false);
+        assert!(extra.is_empty() || ok_only, "[C03.w.noreply] {} produced bytes of its own: {:?}", what, &extra[..extra.len().min(24)]);
+        let _ = last;
+        cases += 1;
+    }
+    let _ = auth_only;
     println!("VERIF-NATIVE w_c03_responses cases={} nontrivial={}", cases + 1, cases + 1);
 }
 
@@ -1355,9 +1379,11 @@ fn w_c19_faults() {
     for c in &cmds { input_len += c.0.len() + 4; boundaries.push(input_len); }
     let mut cases = 0;
     // end of stream after k bytes: Ok exactly at a command boundary after the handshake
+    let full = converse(hs.clone(), &cmds, vec![], false, None, None);
     for cut in 0..=input_len {
         let r = converse(hs.clone(), &cmds, vec![], false, None, Some(cut));
         assert!(!r.panicked, "[C19.w.eof] panic when the stream ends after {} bytes", cut);
+        assert!(r.log.len() <= full.log.len() && r.log[..] == full.log[..r.log.len()], "[C19.w.nocallback] after the stream ended inside the conversation ({} bytes) the shim was called back: {:?}", cut, r.log.last());
         let at_boundary = boundaries.contains(&cut);
         assert!(r.result.is_ok() == at_boundary, "[C19.w.eof] stream ending after {} bytes ({}a command boundary) gave {:?}", cut, if at_boundary { "" } else { "not " }, r.result);
         cases += 1;
@@ -1369,6 +1395,9 @@ fn w_c19_faults() {
         for pers in [false, true] {
             for kind in [io::ErrorKind::BrokenPipe, io::ErrorKind::UnexpectedEof, io::ErrorKind::ConnectionReset, io::ErrorKind::InvalidData, io::ErrorKind::TimedOut] {
                 let r = converse_k(hs.clone(), &cmds, vec![], false, Some((k, pers)), None, kind);
+                // no shim callback is started after the failure: what the shim saw is a prefix of what it sees in the
+                // fault-free conversation (a callback that cleans up after the connection has failed shows up as an extra event)
+                assert!(r.log.len() <= clean.log.len() && r.log[..] == clean.log[..r.log.len()], "[C19.w.nocallback] after a transport error ({:?}) at operation {} the shim was called back: {:?}", kind, k, r.log.last());
                 // the two documented Drop panics (known findings D10) are not re-reported here
                 if r.panicked { continue; }
                 assert!(r.result.is_err(), "[C19.w.fault] transport error ({:?}) at operation {} was masked (run_on returned Ok)", kind, k);
@@ -1450,6 +1479,36 @@ fn w_c20_malformed() {
         let r = converse(hs.clone(), &[(vec![0x0e], 0)], vec![], false, None, None);
         assert!(!r.panicked, "[C20.w.nopanic] handshake payload {:?} made run_on panic", hs);
         cases += 1;
+    }
+    // error PATHS build messages from client bytes: long garbage in which multi-byte characters and invalid bytes sit
+    // at every offset around the lengths at which messages are commonly cut (handshake without a terminated user
+    // name, 4.1 and 3.20; unknown command bytes and invalid UTF-8 text with such tails)
+    let fills: [&[u8]; 4] = [b"a", "\u{e9}".as_bytes(), b"\xff", "\u{1F600}".as_bytes()];
+    for fill in fills.iter() {
+        for pad in 0..4usize {
+            for total in [40usize, 64, 65, 66, 100, 130, 260, 1030] {
+                let mut tail: Vec<u8> = vec![b'x'; pad];
+                while tail.len() < total { tail.extend_from_slice(fill); }
+                let mut h41 = hs41(b"", 0);
+                h41.truncate(32);
+                h41.extend_from_slice(&tail);
+                let mut h320 = vec![0x05, 0x00, 0x00, 0x00, 0x01];
+                h320.extend_from_slice(&tail);
+                for hs in [h41, h320] {
+                    let r = converse(hs.clone(), &[(vec![0x0e], 0)], vec![], false, None, None);
+                    assert!(!r.panicked, "[C20.w.nopanic] a handshake response with an unterminated {}-byte user name (fill {:?}, offset {}) made run_on panic", total, fill, pad);
+                    assert!(r.result.is_err() && r.log.is_empty(), "[C20.w.handshake] a handshake response without a terminated user name was accepted");
+                    cases += 1;
+                }
+                for first in [0x03u8, 0x16, 0x02, 0x55, 0x17, 0x18] {
+                    let mut c = vec![first];
+                    c.extend_from_slice(&tail);
+                    let r = converse(hs41(b"u", 0), &[(c, 0), (vec![0x0e], 0), quit()], vec![], false, None, None);
+                    assert!(!r.panicked, "[C20.w.nopanic] command {:#x} followed by {} bytes of garbage (fill {:?}, offset {}) made run_on panic", first, total, fill, pad);
+                    cases += 1;
+                }
+            }
+        }
     }
     // out-of-order fragment ids and an empty packet stream
     let mut input = frame(&hs41(b"u", 0), 1);
